@@ -277,6 +277,16 @@ func (t *Tree) Extend(parent *Node, prof Profile) *Node {
 	child := parent.Height + 1
 	v2 := child >= t.Env.Net.HardforkV2.AllowHeight && (child >= t.Env.Net.HardforkV2.RequireHeight || t.Rng.IntN(3) != 0)
 	blk := bb.Seal(t.nextTimestamp(parent, true), t.minerFor(prof), v2)
+	if blk.V2 == nil && t.Rng.IntN(4) == 0 {
+		// v1 blocks may split the miner payout over several outputs
+		half := blk.MinerPayouts[0].Value.Div64(2)
+		if !half.IsZero() {
+			blk.MinerPayouts[0].Value = blk.MinerPayouts[0].Value.Sub(half)
+			blk.MinerPayouts = append(blk.MinerPayouts, types.SiacoinOutput{Address: t.minerFor(prof), Value: half})
+			MineNonce(parent.L.State, &blk)
+			bb.Kinds = append(bb.Kinds, "two-miner-payouts")
+		}
+	}
 	return t.Attach(parent, blk, "", bb.Kinds)
 }
 
